@@ -187,10 +187,13 @@ CLAIMED = {
             "both calling conventions): for all 16-bit arguments div is signed division truncating towards zero and mod "
             "its remainder (sign of the dividend), a zero divisor gives zero, results are 16-bit words and "
             "divisor*quotient+remainder recomposes the dividend; and, on the specification machine of C01, the full "
-            "contract of the register-convention routines size and ord for every machine state (result, return to the "
-            "caller, FP restored, SP, R2..R11 and memory untouched), their instruction lists being compared with what the "
-            "real loader produces from hera/stdlib.py. NOT theorems: the other functions written in HERA assembly "
-            "(chr, not, concat, substring, tstrcmp, malloc, and the stack-convention size/ord) and their calling contract — decided by running each "
+            "contract for every machine state of six routines written in HERA assembly: size, ord and not in both calling "
+            "conventions (result, return to the caller, FP restored, SP and the caller's registers unchanged, exactly "
+            "which memory cells are written), `not` being placed at an arbitrary address (its label branches are absolute); "
+            "these rest on C19_core_simulation (registers/memory/pc/flags of the Spec machine evolve independently of "
+            "hera-py's bookkeeping) and on instruction lists compared with what the real loader produces from "
+            "hera/stdlib.py at three load addresses. NOT theorems: chr, concat, substring, tstrcmp, malloc (loops, calls "
+            "into malloc) and the I/O functions — decided by running each "
             "function in both conventions on the real interpreter with edge/random arguments under random register "
             "contents (result vs independent computation, return to the caller, SP/FP restored, R1..R10 preserved in the "
             "stack convention, malloc blocks disjoint).",
